@@ -86,6 +86,7 @@ KERNEL = ["theories/KernelProps.vo", "theories/Enc.vo", "theories/Num.vo"]
 PROP_TARGETS: dict[str, list[str]] = {
     "C03": KERNEL, "C05": KERNEL, "C07": KERNEL, "C08": KERNEL,
     "C19": KERNEL + ["theories/RuleIds.vo", "gen/Rules.vo"],
+    "C06": ["theories/FormData.vo"],
     "C17": ["theories/Smart.vo", "theories/SmartQc.vo", "theories/Render.vo", "theories/Enc.vo", "theories/Num.vo"],
     "C16": ["theories/Fmt.vo", "theories/FmtSem.vo", "theories/Render.vo", "theories/Enc.vo"],
 }
